@@ -25,7 +25,7 @@ CHECKS = {
 	'C02': dict(
 		category='exploration',
 		technique='exhaustive subset pairs x 36 dtype pairs + Hypothesis-generated boundary-straddling sets vs exact integer ratio rounded once to binary32 (bit compare)',
-		text='All ordered pairs of subsets of a 6/8-element universe in all 36 dtype combinations, plus generated pairs (patterns: equal, disjoint, nested, interleaved, same last, prefix, empty; universes straddling 2^15/2^16/2^31/2^32/2^63 and ending at the top of the wider type; universes whose values alias each other modulo 2^16 / 2^32; sets up to 3000 elements and size-skewed pairs (one set >= 4096, the other <= 1/64 of it, values above 2^53); strided views; NumPy's other names for the 64-bit types (long long: equal dtype, distinct scalar type); both argument orders) are compared bit-for-bit with an integer-arithmetic round-half-even oracle; jaccard() must be one minus that distance.',
+		text='All ordered pairs of subsets of a 6/8-element universe in all 36 dtype combinations, plus generated pairs (patterns: equal, disjoint, nested, interleaved, same last, prefix, empty; universes straddling 2^15/2^16/2^31/2^32/2^63 and ending at the top of the wider type; universes whose values alias each other modulo 2^16 / 2^32; sets up to 3000 elements and size-skewed pairs (one set >= 4096, the other <= 1/64 of it, values above 2^53); strided views; the other NumPy names of the 64-bit types (long long: equal dtype, distinct scalar type); both argument orders) are compared bit-for-bit with an integer-arithmetic round-half-even oracle; jaccard() must be one minus that distance.',
 		note='Trusts vlib/refmodel/jaccard.py. Sets >= 2^24 elements are not built. Signed arrays hold non-negative values only (documented precondition).',
 		design='DESIGN.md §4 C02',
 	),
